@@ -34,6 +34,7 @@ impl Env {
 pub const BIG_TICKS: u64 = 50_000_000;
 
 pub fn reset_hooks(hash_seed: u64, trace: bool) {
+    crate::report::watchdog_beat();
     vh::set_hash_seed(hash_seed);
     vh::set_clock_ns(0);
     vh::set_fault(None);
@@ -271,6 +272,9 @@ where
                             heavy_from,
                             heavy_seed,
                         };
+                        crate::report::watchdog_leaf(|| {
+                            json!({"seed_name": leaf.seed.name, "seed_ops": leaf.seed.ops, "ops": leaf.ops}).to_string()
+                        });
                         f(&mut env, &leaf);
                         // next suffix
                         let mut k = p.depth;
@@ -292,6 +296,7 @@ where
                         }
                     }
                 }
+                crate::report::watchdog_idle();
                 merged.lock().unwrap().merge(std::mem::take(&mut env.stats));
             });
         }
